@@ -85,6 +85,14 @@ CHECKS = {
          "all queryable metadata is compared by name with the design built directly, both are simulated over all input sequences of length 2, and nothing of a removed subtree may be reachable from top.",
          "Trusted: the canonicalisation in meta() (names only). One hierarchy shape; add_value_port/add_connection APIs are not explored.",
          "DESIGN.md 6.C15", "E1"),
+ "C16": ("model_checking",
+         "exhaustive input sequences on the real simulator with VCD + text-wave passes; dump read back by an independent VCD parser and compared per signal per cycle with sampled simulator values",
+         "25 designs (nets of top-level signals sharing one identifier, nets with slices, struct signals, constants tied to ports, never-changing signals, children, "
+         "100- and 200-output designs that need multi-character identifier codes) are simulated for every sequence of length 3 (4) over a 4-letter alphabet that revisits values; "
+         "every declared variable of every scope must be present once with the right width and carry, at time 100*t, the value sampled before the edge of cycle t; clock edges and "
+         "the text-wave record are checked too.",
+         "Trusted: vt/vcdparse.py (90 lines). Net numbering order is controlled through the object-hash seam (4 permutations).",
+         "DESIGN.md 6.C16", "E1 E2 E4"),
 }
 
 NOT_YET = {}
